@@ -134,6 +134,7 @@ FuncContract.unreachable_ok_lines = _unreachable_ok_lines
 FuncContract.unreachable_ok = ()
 FuncContract.frame_check = True
 FuncContract.cuts = ()
+FuncContract.only_segments = None      # verify only these segments (others are outside the subset / outside the property)
 
 
 class LoopSpec:
@@ -323,6 +324,10 @@ def apply_contract(eng, con, fn, args, kwargs, node, fr, caller_label=None, extr
     # exceptional conditions are predicates of the PRE-state: evaluate them before anything is havocked
     raise_conds = [(exc, eng.truth(eng.eval_spec(cond, env, con.qual.split(".")[0], old=old))) for exc, cond in con.raises_when]
     for loc in con.modifies:
+        if "." not in loc:
+            # a container passed as argument and mutated in place
+            havoc_like(eng, eng.force(env[loc]), loc)
+            continue
         obj, field = resolve_location(eng, loc, env)
         cur = eng.state.heap.get((obj.oid, field))
         ty = field_type(eng, obj, field)
@@ -505,6 +510,8 @@ def verify_function(eng, con, label=None, setup=None, extra_checks=None):
     eng.covered = set()
     n = 0
     for seg in range(len(con.cuts) + 1):
+        if con.only_segments is not None and seg not in con.only_segments:
+            continue
         eng.segment = seg
         n += eng.explore(run_once)
     # vacuity guard: which statements of the function's own body were reached by at least one path
@@ -525,7 +532,14 @@ def verify_function(eng, con, label=None, setup=None, extra_checks=None):
     text = eng.repo.text(modname).splitlines()
     ok_lines = set(con.unreachable_ok_lines(eng, fn))
     eng.unreached = sorted(l for l in own - eng.covered if "pragma: no" not in text[l - 1] and l not in ok_lines)
-    if eng.exits == 0:
+    if con.only_segments is not None:
+        spans = []
+        for seg in con.only_segments:
+            a = cut_index(fn, con.cuts[seg - 1], eng, modname) if seg > 0 else 0
+            b = cut_index(fn, con.cuts[seg], eng, modname) if seg < len(con.cuts) else len(fn.body)
+            spans.append((fn.body[a].lineno, fn.body[b - 1].end_lineno if b > a else fn.body[a].lineno))
+        eng.unreached = [l for l in eng.unreached if any(lo <= l <= hi for lo, hi in spans)]
+    if eng.exits == 0 and not eng.truncated:
         raise OutOfSubset("vacuity guard: no path of %s reaches a function exit (contradictory contract or invariant?)" % con.qual)
     eng.exit_paths = eng.exits
     return n
